@@ -466,6 +466,28 @@ impl Property for C03 {
         Some(C03Case { v5, stream: hex(stream), cuts, max_size, note: "rawfuzz:?pkts".into() })
     }
 
+    /// reference-encoded (and mutated) streams from the proptest strategy as starting inputs
+    fn fuzz_seed_corpus(&self, seed: u64) -> Vec<Vec<u8>> {
+        use proptest::strategy::ValueTree;
+        use proptest::test_runner::{Config, RngSeed, TestRunner};
+        let mut runner = TestRunner::new(Config { failure_persistence: None, rng_seed: RngSeed::Fixed(seed ^ 0xC03), ..Config::default() });
+        let strategy = case_strategy();
+        let mut out = Vec::new();
+        for i in 0..400u32 {
+            if let Ok(t) = strategy.new_tree(&mut runner) {
+                let c = t.current();
+                let stream = unhex(&c.stream);
+                if stream.is_empty() || stream.len() > 3000 {
+                    continue;
+                }
+                let mut v = vec![if c.v5 { 0u8 } else { 1u8 }, (i % 8) as u8, (i % 5) as u8, (i % 251) as u8];
+                v.extend_from_slice(&stream);
+                out.push(v);
+            }
+        }
+        out
+    }
+
     fn check(&self, case: &C03Case) -> CaseReport {
         let stream = unhex(&case.stream);
         let version = if case.v5 { rf::Version::V5 } else { rf::Version::V311 };
